@@ -53,6 +53,13 @@ THEOREMS = [
     "Mesa.Viz.C20_user_inputs_one_per_adjustable_param",
     "Mesa.Viz.C20_creator_accepts_iff_model_can_be_created",
     "Mesa.Viz.C20_input_change_keeps_the_parameter_set",
+    "Mesa.Viz.C20_ctrl_step_button",
+    "Mesa.Viz.C20_ctrl_steps_never_go_back",
+    "Mesa.Viz.C20_ctrl_every_reset_gets_the_whole_parameter_set",
+    "Mesa.Viz.C20_ctrl_reset_uses_latest_inputs",
+    "Mesa.Viz.C20_ctrl_play_runs_to_the_models_stop",
+    "Mesa.Viz.C20_ctrl_pause",
+    "Mesa.Viz.C20_ctrl_running_flag_is_the_models",
 ]
 COUNTS = {"quick": 1600, "thorough": 60000}
 TRUSTED = [
@@ -60,6 +67,7 @@ TRUSTED = [
     "matplotlib, property layers: imshow(origin='lower') keeps the array, vmin / vmax / alpha / cmap it is given (read back through get_array, norm, get_alpha, get_cmap); a colormap maps level k/span to a colour of its own (the level behind a hexagon's colour is searched among the multiples of 1/span); Colorbar widens a range without extent by nonsingular(expander=0.1) (undone when read back) and does what it likes with an inverted range (not compared); the colour of a name (to_rgba)",
     "Altair: Chart.to_dict() reports the rows given to alt.Data(values=...), the encoding channels (x / y type, colour, size, tooltip fields) and the mark properties unchanged; what Vega-Lite renders from them (a nominal colour scale maps colour names to scheme colours) is not modelled",
     "solara/reacton: solara.render runs the component function, its children and then its effects once (used for SpaceMatplotlib, SpaceAltair, ModelCreator; the Axes / Chart are taken from the post_process hook; the inputs UserInputs creates are recorded at solara's boundary — the calls of solara.SliderInt / SliderFloat / Select / Checkbox / InputText —, an input is changed by calling its on_value); a reactive value set outside a render keeps the value",
+    "solara, the controls: SolaraViz is rendered by solara.render with solara.Sidebar / solara.AppBar replaced by solara.Column (outside an AppLayout their children are not rendered); buttons, sliders, the checkbox and the inputs are operated through the on_click / on_value recorded at solara's boundary, a disabled button is not clicked; threads are not run: the play loop is the function handed to solara.lab.use_task, called in the harness' thread with time.sleep (of mesa.visualization.solara_viz) as the point where the scripted user acts; that solara starts that function when playing / running change, cancels it on unmount, and what the visualisation thread does (use_threads) is not modelled; reacton's reconciliation by position (why toggling the threads checkbox remounts the controller) is observed, not modelled beyond its effect",
     "networkx spring_layout(seed=0) is deterministic; the model keeps a node's label for its layout position",
     "numpy boolean masking / np.unique / set() over the marker and z-order arrays (the model keeps the distinct values; the order of the scatter calls is not compared)",
     "positions are exact integers (hex grids in units of sqrt(3)/2 and 1/2); IEEE rounding of the hex transform is checked with tolerance 1e-6, not modelled",
@@ -70,7 +78,7 @@ ASSUMPTIONS = [
     "portrayal values are colour names, RGB / RGBA tuples (also mixed, V14), marker symbols, ints; alpha as a float; numbers to be colour-mapped are outside the generator",
     "2-D spaces",
 ]
-RULE = ("40% space scenarios: one of 12 space classes (4 mesa.space grids, 3 discrete_space grids, 2 networks with 1-6 nodes, shuffled / "
+RULE = ("12% ctrl scenarios: the real SolaraViz on a model class taking **kw that stops at kw[stop] (ModelController, or SimulatorController with an ABMSimulator), model_params of 0-4 entries (fixed ints / dicts, int / float Slider objects, option dicts of the five input types, rarely an unsupported type), render interval 1-5, threads on / off, then 3-12 user actions: Step, play / pause, Reset, render-interval and threads changes, input changes (also of names without an input), and play loops of 0-4 scripted ticks during whose sleeps the user does nothing / pauses / resets / moves the render slider / changes an input and during whose steps (15%) clicks pause; observed after every action: model.steps, model.running, the buttons (label, disabled), the render interval, the update counter, the keyword arguments the current model was created with; 40% space scenarios: one of 12 space classes (4 mesa.space grids, 3 discrete_space grids, 2 networks with 1-6 nodes, shuffled / "
         "non-contiguous node labels and possibly no edges, Voronoi, 2 continuous spaces), sizes 1-5, 0-6 agents with several per cell, "
         "agents never placed, a pool of 0-4 portrayal dict *objects* shared between agents (keys color/size/marker/zorder, colours as names and as RGB(A) tuples — none / all / mixed —, the optional "
         "alpha/edgecolors/linewidths under an all/none/some policy, unsupported keys), interleaved place/move/remove/dict-rewrite/"
@@ -79,14 +87,14 @@ RULE = ("40% space scenarios: one of 12 space classes (4 mesa.space grids, 3 dis
         "(1-3 named layers, requests of 1-4 entries in any order incl. names the space has no layer for; colour or colormap or neither; "
         "alpha absent / 25 / 50 / 100 %; range automatic, one-sided, explicit incl. without extent, cutting the data and inverted; colour bar "
         "absent / on / off; constant layers; float and int layers; drawn repeatedly; on non-grid classes), including observations of the space without agents; "
-        "60% parameter scenarios: 1-3 generated __init__ signatures (instance parameter named self/this, positional-only, missing; "
+        "48% parameter scenarios: 1-3 generated __init__ signatures (instance parameter named self/this, positional-only, missing; "
         "positional-only, positional-or-keyword, *args, keyword-only, **kwargs under any name, defaults) each with 2-6 key sets "
         "(required names mostly present, extras, the instance's name, positional-only names) through _check_model_params, "
         "ModelCreator (solara.render) and split_model_params, and through ModelCreator on full parameter dicts (fixed ints and dicts, int / float "
         "Slider objects, option dicts of the five supported and of unsupported types, with / without value and label) followed by changes of "
         "inputs (model_parameters read back after each); plus, on every run, the exhaustive enumeration of all signature shapes "
         "with <= 3 parameters after the instance parameter x all key subsets (376 signatures, 6.1k checks); non-trivial = an observation of >= 2 agents or a check against >= 3 "
-        "parameters; distinct = distinct op-line sequences (sha1)")
+        "parameters or a controller history that stepped the model and reset it; distinct = distinct op-line sequences (sha1)")
 
 
 def _load_known():
@@ -143,6 +151,9 @@ def nontrivial(sc, obs):
             return True
     if sc.lines[0] == "scenario params":
         return any(l.startswith("sig ") and len(l.split()) >= 4 for l in sc.lines)
+    if sc.lines[0].startswith("scenario ctrl"):
+        # the model was stepped and a reset created another one
+        return any(re.match(r"ok gen=[1-9]", o) for o in obs) and any(re.search(r" steps=[1-9]", o) for o in obs)
     return False
 
 
@@ -188,6 +199,55 @@ def tags(sc, obs):
         refs = [p[2] for p in ps if p[2] != "-"]
         if len(refs) != len(set(refs)):
             yield "branch:shared-portrayal-dict"
+    elif w0[1] == "ctrl":
+        yield "ctrl:" + w0[2]
+        prev = None
+        changed = False
+        for l, o in zip(sc.lines[1:], obs[1:]):
+            w = l.split()
+            yield "op:ctrl-" + w[0]
+            f = dict(t.split("=", 1) for t in o.split()[1:] if "=" in t) if o.startswith("ok ") else None
+            if w[0] == "viz":
+                yield "ctrl-viz:" + ("ok" if f else " ".join(o.split()[:2]))
+                yield "ctrl-viz-threads:" + w[2]
+                for t in w[4:]:
+                    g = t.split(":")[1].split("/")
+                    yield "ctrl-param:" + (g[0] if g[0] != "spec" else g[1] if g[1] in V.INPUT_TYPES else "unsupported-type")
+            elif f is None:
+                yield f"ctrl-{w[0]}:" + o
+            elif w[0] in ("change",):
+                changed = True
+            elif w[0] == "threads" and prev and (prev["playing"], prev["running"]) != (f["playing"], f["running"]):
+                yield "ctrl-branch:threads-toggle-remounts-controller"
+            elif w[0] == "step":
+                yield "ctrl-step:" + ("model-stops" if prev and prev["mrunning"] == "1" and f["mrunning"] == "0" else "ok")
+            elif w[0] == "loop" and prev:
+                for t in w[1:]:
+                    sl, _, j = t.partition("@")
+                    yield "ctrl-loop-ev:" + sl.split("=")[0].split(":")[0] + ("@" if j else "")
+                    if sl.startswith("set:"):
+                        changed = True
+                if not (prev["playing"] == "1" and prev["running"] == "1"):
+                    yield "ctrl-loop:not-started"
+                else:
+                    ticks = int(f["updates"]) - int(prev["updates"])
+                    yield ("ctrl-loop-end:" + ("model-stopped" if f["running"] == "0" and f["playing"] == "1" else
+                                               "paused" if f["playing"] == "0" else "other"))
+                    if f["gen"] != prev["gen"]:
+                        yield "ctrl-loop:reset-during-play"
+                    d = int(f["steps"]) - int(prev["steps"])
+                    if f["gen"] == prev["gen"] and any("@" in t for t in w[1:]) and d % max(1, int(prev["render"])) != 0:
+                        yield "ctrl-branch:tick-cut-short-by-pause-during-step"
+                    if f["gen"] == prev["gen"] and f["mrunning"] == "0" and prev["mrunning"] == "1" and \
+                            "stop:" in f["kwargs"] and int(f["steps"]) > int(re.search(r"stop:(\d+)", f["kwargs"]).group(1)):
+                        yield "ctrl-branch:tick-overruns-the-models-stop"
+                    yield "ctrl-loop-ticks:" + (str(ticks) if ticks < 4 else "4+")
+            if w[0] in ("reset", "loop") and f and prev and f["gen"] != prev["gen"]:
+                yield "ctrl-reset:" + ("after-input-change" if changed else "initial-params")
+                if f["kwargs"] == "-":
+                    yield "ctrl-reset:no-params"
+            if f:
+                prev = f
     else:
         for l, o in zip(sc.lines[1:], obs[1:]):
             w = l.split()
